@@ -103,7 +103,10 @@ def ramanUniH (j : Json) : R Json := do
   let grid ← fList C03.getPair j "grid"
   match solve method order alpha cr pin grid with
   | .error e => return jObj [("error", jStr e)]
-  | .ok pw => return jObj [("power", jList (jList jF) pw)]
+  | .ok pw =>
+    let ends := if method == "perturbative" then Gnpy.Raman.perturbativeEnd order alpha cr pin grid
+                else pw.zip pin |>.map (fun x => Gnpy.Raman.lastD x.2 x.1)
+    return jObj [("power", jList (jList jF) pw), ("end", jList jF ends)]
 
 /-- `Fiber.__call__` with Raman on and no pumps: `_create_lumped_losses` on the solver grid `z`, the unidirectional
 solver on the powers behind the input connector, the loss of the last grid point, the output connector -/
